@@ -73,6 +73,9 @@ def ramp(shape, dtype, pattern="ramp"):
         else:
             menu = np.array([1.0, 0.0, 254.0 / 255.0, 1.0 / 255.0, 0.5, 1.0 / 65535.0], dtype=np.float64)
         return menu[(i.astype(np.int64) * 5 + i.astype(np.int64) // 6) % 6].astype(dtype)
+    if pattern == "wide":  # float data that is NOT confined to [0, 1]: raw intensities, negatives (only used where no integer type is involved)
+        menu = np.array([4095.0, -1.0, 2.5, 0.25, -0.001, 1.0, 65536.0, 1.0000001], dtype=np.float64)
+        return (menu[i.astype(np.int64) % 8] + 8.0 * (i.astype(np.int64) // 8)).astype(dtype)
     if dtype == "uint8":
         return (i + 2).astype(np.uint8)  # n <= 192: distinct, never 0 or 1
     if dtype == "uint16":
@@ -83,8 +86,8 @@ def ramp(shape, dtype, pattern="ramp"):
 SAVE_DTYPES = {
     "uint8": (None, "float32", "float64", "uint16"),
     "uint16": (None, "float32", "float64"),
-    "float32": (None, "uint8", "uint16", "float64"),
-    "float64": (None, "uint8", "uint16", "float32"),
+    "float32": (None, "uint8", "uint16", "float64", "float32"),
+    "float64": (None, "uint8", "uint16", "float32", "float64"),
 }
 READ_DTYPES = {
     "uint8": ("default", "uint8", "uint16", "float32", "float64"),
@@ -124,6 +127,8 @@ def io_cases(sizes, thorough):
                                     yield (shape, src, fmt, sv, rd, sp, kind, "ramp")
                                     if fmt != "tif-raw":
                                         yield (shape, src, fmt, sv, rd, sp, kind, "extremes")
+                                    if not _is_uint(src) and not _is_uint(stored) and not _is_uint("float32" if rd == "default" else rd):
+                                        yield (shape, src, fmt, sv, rd, sp, kind, "wide")
 
 
 def io_model(cfg):
@@ -395,7 +400,7 @@ def margin_scalar(p, a, b, ra, rb):
     return min(f(lo), f(0.0), f(1.0))
 
 
-RESOLUTIONS = (1, 0.5, 0.25, (1, 0.5, 0.25), (0.25, 1, 0.5), 2)
+RESOLUTIONS = (1, 0.5, 0.25, (1, 0.5, 0.25), (0.25, 1, 0.5), 2, 3, 0.75, (1, 1, 3), (3, 0.75, 1.5))
 
 _CBANKS: dict = {}
 
@@ -473,14 +478,34 @@ def raster_box(R, xyz, r, res3, ranged):
     if ranged:
         lo = [v - 1 for v in lo]
         hi = [v + 2 for v in hi]
-    counts = []
+    counts, upper = Counts(), []
     for c in range(3):
         q = (hi[c] - lo[c]) / res3[c]
-        if abs(q - round(q)) > 1e-9:
-            R.skip("box-not-multiple-of-resolution")
+        if abs(q - round(q)) <= 1e-9:
+            counts.append(int(round(q)))
+            upper.append(int(round(q)))
+            continue
+        # the box is not a whole number of voxels along this axis: every voxel whose CENTRE lies inside the box must be there
+        # (fewer would not cover the box); a last partial voxel whose centre lies outside may or may not be present
+        k = q - 0.5
+        if abs(k - round(k)) <= 1e-9:
+            R.skip("voxel-centre-on-box-face")
             return None
-        counts.append(int(round(q)))
+        if k < 0:
+            # no voxel centre falls inside the box along this axis (resolution coarser than twice the extent): what "covering" means
+            # for a stack without voxels is not defined by the statement - not asserted
+            R.skip("box-thinner-than-half-a-voxel")
+            return None
+        counts.append(int(math.floor(k)) + 1)
+        upper.append(int(math.ceil(q)))
+    counts.upper = upper
     return lo, hi, counts
+
+
+class Counts(list):
+    """Voxel counts per axis (x, y, z): the centres strictly inside the box; `.upper` = the largest admissible count."""
+
+    upper: list = []
 
 
 def judge_raster(R, label, p, xyz, r, res3, box, img):
@@ -489,10 +514,14 @@ def judge_raster(R, label, p, xyz, r, res3, box, img):
     edges = ref.edges(p)
     cls = edge_class(xyz, r, edges)
     want_shape = (counts[2], counts[0], counts[1])
+    upper = getattr(counts, "upper", None) or list(counts)
+    max_shape = (upper[2], upper[0], upper[1])
     img = np.asarray(img)
-    if not R.check(img.ndim == 3 and tuple(img.shape) == want_shape, "raster:shape",
-                   lambda: f"{label}: stack shape {img.shape}, want (Z,X,Y) = {want_shape} for box {lo}..{hi} at resolution {res3}"):
+    if not R.check(img.ndim == 3 and all(a <= b <= c for a, b, c in zip(want_shape, img.shape, max_shape)), "raster:shape",
+                   lambda: f"{label}: stack shape {img.shape}, want (Z,X,Y) = {want_shape}" + ("" if max_shape == want_shape else f" (up to {max_shape})")
+                   + f" for box {lo}..{hi} at resolution {res3}: every voxel whose centre lies in the box"):
         return False
+    counts = [img.shape[1], img.shape[2], img.shape[0]]  # judge every voxel that is there
     cx = [lo[c] + res3[c] / 2 + np.arange(counts[c]) * res3[c] for c in range(3)]
     Zg, Xg, Yg = np.meshgrid(cx[2], cx[0], cx[1], indexing="ij")
     P = np.stack([Xg.ravel(), Yg.ravel(), Zg.ravel()], axis=1)
@@ -790,7 +819,7 @@ def spaces(tier, seed):
                  bounds={"axis_sizes": list(sizes), "channels": ["3-D input", 1, 3], "dtypes": list(SAVE_DTYPES),
                          "formats": ["tif-zlib", "tif-raw", "nrrd", "npy"], "save_dtype": {k: [str(v) for v in vs] for k, vs in SAVE_DTYPES.items()},
                          "read_dtype": {k: list(vs) for k, vs in READ_DTYPES.items()}, "spellings": ["class", "np.dtype"],
-                         "patterns": ["ramp", "extremes (not for tif-raw)"], "each file": "read twice"}),
+                         "patterns": ["ramp", "extremes (not for tif-raw)", "wide (float data outside [0, 1]; only where no integer type is involved)"], "each file": "read twice"}),
         Space.of("save-load-history", io_hist, check_io_history,
                  bounds={"configurations": len(HISTORY_CFGS), "sequence_length": hist_depth,
                          "history": "save all, then read all in order and the first again; earlier arrays re-inspected"}),
